@@ -249,6 +249,65 @@ func Run(out string) {
 			}
 		}
 	}
+	// --- CSI geometries whose positions exceed 2^31 (and 2^32): the real functions get real positions,
+	// the events are in units of smallest-level tiles (Bins!TileLemma: geometry (ms, d) at [b, e) is
+	// geometry (0, d) at [b >> ms, ((e-1) >> ms) + 1)), so that TLC's 32-bit integers suffice
+	t.Begin("bins/csi-large", nil)
+	nlarge := 400
+	if tr.Tier() == "thorough" {
+		nlarge = 20000
+	}
+	for i := 0; i < nlarge; i++ {
+		g := [][2]uint32{{14, 7}, {12, 8}, {16, 6}, {20, 10}, {3, 10}}[i%5]
+		ms, d := g[0], g[1]
+		nt := int64(1) << (3 * d)
+		var bt int64
+		switch r.Intn(4) {
+		case 0: // a tile whose position is just below / at / above 2^31 and 2^32
+			p := []int64{1 << 31, 1 << 32, 1 << 33}[r.Intn(3)]
+			bt = p>>ms + int64(r.Intn(3)) - 1
+		case 1: // the edge of a bin of some level
+			l := uint32(r.Intn(int(d) + 1))
+			bt = (int64(1+r.Intn(7)) << (3 * l)) + int64(r.Intn(3)) - 1
+		default:
+			bt = r.Int63n(nt)
+		}
+		if bt < 0 {
+			bt = 0
+		}
+		if bt >= nt {
+			bt = nt - 1
+		}
+		et := bt + []int64{0, 0, 1, 7, 8, 9, int64(r.Intn(100))}[r.Intn(7)] // tile of the last base
+		if et >= nt {
+			et = nt - 1
+		}
+		unit := int64(1) << ms
+		b := bt*unit + []int64{0, unit - 1, r.Int63n(unit)}[r.Intn(3)]
+		e := et*unit + []int64{0, unit - 1, r.Int63n(unit)}[r.Intn(3)] + 1
+		if e <= b {
+			e = b + 1
+		}
+		var list []uint32
+		var bin uint32
+		res := "ok"
+		func() {
+			defer func() {
+				if x := recover(); x != nil {
+					res = fmt.Sprint("panic: ", x)
+				}
+			}()
+			bin = csi.VerifReg2bin(b, e, ms, d)
+			list = csi.VerifReg2bins(b, e, ms, d)
+		}()
+		if list == nil {
+			list = []uint32{}
+		}
+		t.Ev("binrow", tr.M{"kind": "csi", "ms": 0, "d": d, "b": bt, "e0": et + 1, "step": 1, "count": 1, "runs": [][]int64{{1, int64(bin)}},
+			"realms": ms, "realb": fmt.Sprint(b), "reale": fmt.Sprint(e), "sig": "binrow/csi-large"})
+		t.Ev("bins", tr.M{"kind": "csi", "ms": 0, "d": d, "b": bt, "e": et + 1, "list": list, "res": res,
+			"realms": ms, "realb": fmt.Sprint(b), "reale": fmt.Sprint(e), "sig": "bins/csi-large"})
+	}
 	// --- bin lists
 	t.Begin("bins/lists", nil)
 	binsEv := func(kind string, ms, d uint32, b, e int64) {
